@@ -45,6 +45,26 @@ def consumer_case(rng, consumer_input, final_script, consume, later_inputs, same
     steps = [sop(spawn(0, menu)), frame(raw(pads=[pad(0)]))] + [frame(rawall()) for _ in range(L)] + [frame(raw(pads=[pad(0)])), frame(rawall())]
     return scenario(menu, [0], cfg, steps)
 
+def multi_consumer_case(rng, dim, maxabs, with_conds, same_ctx):
+    """a consuming action with three bindings, several of them contributing in the same frame (equal state): every one
+    of them must be hidden from the listeners, whatever the accumulation mode"""
+    ids = Ids(); al = Alloc()
+    inputs = [key(1), key(2), mbutton(0)]
+    subsets = [s_ for n in range(4) for s_ in itertools.combinations(range(3), n)]
+    L = len(subsets)
+    binds = [bind(ids, inp, [PROBE], [c_script('KExplicit', [rng.choice(['SFired', 'SFired', 'SOngoing']) for _ in range(L + 2)])] if with_conds else [])
+             for inp in inputs]
+    cons = action(ids, al.get(rng, dim, True, maxabs), binds)
+    laters = [action(ids, al.get(rng, j % 4, False), [bind(ids, inp, [PROBE], [])]) for j, inp in enumerate(inputs + [key(3)])]
+    if same_ctx:
+        cfg = {(0, 0): spec([cons] + laters)}; menu = [0]
+    else:
+        cfg = {(0, 0): spec([cons]), (2, 0): spec(laters)}; menu = [0, 2]
+    steps = [sop(spawn(0, menu)), frame(raw(pads=[pad(0)]))]
+    for sub in subsets:
+        steps.append(frame(raw(keys=[k for i, k in ((0, 1), (1, 2)) if i in sub] + [3], mbuttons=[0] if 2 in sub else [], pads=[pad(0)])))
+    return scenario(menu, [0], cfg, steps)
+
 def random_case(rng, L):
     ids = Ids(); al = Alloc()
     n = rng.randint(2, 4)
@@ -60,7 +80,7 @@ def random_case(rng, L):
                 binds.append(bind(ids, rng.choice(FAMILY), [PROBE], conds))
             aconds = [c_script('KExplicit', [rng.choice(['SFired', 'SOngoing', 'SNone']) for _ in range(L + 2)])] if rng.random() < .5 else []
             am = idlist(ids, []); ac = idlist(ids, aconds)
-            acts.append('(mkAction %d %s %s %s)' % (al.get(rng, rng.randrange(4), consume), am, ac, lst(binds)))
+            acts.append('(mkAction %d %s %s %s)' % (al.get(rng, rng.randrange(4), consume, rng.random() < .4), am, ac, lst(binds)))
         cfg[(c, 0)] = spec(acts, pad=rng.choice([None, None, 0]))
     # some contexts are created later, while inputs are held: their bindings start suppressed (C08), and the
     # suppression test itself must not disturb what is hidden from the contexts evaluated after them
@@ -87,6 +107,11 @@ def cases(tier, rng):
                     for cp, lp in pads_:
                         if same_ctx and cp != lp: continue
                         yield (consumer_case(rng, cin, sc, consume, FAMILY, same_ctx, lp, cp, 3), 'relation-classes')
+    for dim in (0, 1):
+        for maxabs in (False, True):
+            for with_conds in (False, True):
+                for same_ctx in (True, False):
+                    yield (multi_consumer_case(rng, dim, maxabs, with_conds, same_ctx), 'multi-binding-consumer')
     for cin, held in ((key(1), dict(keys=[1])), (mbutton(0), dict(mbuttons=[0])), (key(1, CONTROL), dict(keys=[1, 102])), (pbutton(0), dict(pads=[pad(0, [0])]))):
         for mid_inputs in ([key(3)], [key(3), key(2)], [mbutton(1), key(3)], [key(2), cin]):
             for how in ('insert', 'rebuild'):
@@ -111,7 +136,7 @@ STAGES = [dict(name='consumption', mode='app', coq='Check.C05w', cases=cases, no
                exhaustive={'thorough': True, 'quick': True},
                rule='a consuming (or non-consuming) action on each of 9 inputs (Ctrl+K, K, Ctrl+mouse button, motion, Shift+wheel, gamepad button, gamepad axis, Ctrl+Shift+K, Shift+Alt+mouse button) whose scripted final state is Fired / Ongoing / None / mixed, '
                     'followed - in the same context or in a lower-priority one, with equal or different gamepad settings - by probed bindings of all 22 relation classes (incl. bindings requiring a superset / subset / overlap of the consumed modifier keys) (same key, same key other modifiers, '
-                    'other key needing the used modifier, other modifier, other devices); an idle frame and a further frame check that nothing stays hidden; a context with unrelated, partly released inputs inserted or rebuilt between a consuming higher-priority context and a lower-priority listener while the contested input is held; random mixes (some contexts created late, rebuilds) of 2-4 contexts with 1-3 actions of 1-3 '
+                    'other key needing the used modifier, other modifier, other devices); an idle frame and a further frame check that nothing stays hidden; a consuming action (Cumulative or MaxAbs, bool or 1D) with three bindings under every subset of them pressed, with and without scripted conditions, so that several inputs contribute in one frame; a context with unrelated, partly released inputs inserted or rebuilt between a consuming higher-priority context and a lower-priority listener while the contested input is held; random mixes (some contexts created late, rebuilds) of 2-4 contexts with 1-3 actions of 1-3 '
                     'bindings and scripted conditions at both levels. non-trivial = some action fires; distinct = distinct scenario text')]
 CLAUSES = {1: 'an input related to one consumed earlier in the frame did not read as inactive', 2: 'a read differs from the raw input although nothing related to it was consumed before it in this frame (earlier actions affected, hidden without consumption, or hidden across frames)',
            8: 'panic', 9: 'malformed trace', 10: 'panic'}
